@@ -30,7 +30,7 @@ func init() {
 			{ID: "C14.R6", Floor: 3, Run: columnEffectsComplete, Text: "per-column effects are not skipped (= C01.R12)"},
 			{ID: "C14.R7", Floor: 2, Run: idsNotFabricated, Text: "component ids in per-column loops come from the table's id list (= C01.R13): zeroing by buffer position clears the wrong columns"},
 			{ID: "C14.R8", Floor: 1, Run: typeListedForItsID, Text: "a column's type is the registry's type for its id: in every componentType{ID, Type} literal Type is registry.Types[ID.id]"},
-			{ID: "C14.R9", Floor: 5, Run: offsetsInPointerWidth, Text: "storage offsets are computed in pointer width (= C01.R18)"},
+			{ID: "C14.R9", Floor: 1, Run: offsetsInPointerWidth, Text: "storage offsets are computed in pointer width (= C01.R18)"},
 		},
 	})
 }
@@ -320,6 +320,11 @@ func classifyPointer(v ssa.Value) (string, string) {
 				if cname(sc) == "Get" || cname(sc) == "UnsafePointer" {
 					return "column", "result of " + cname(sc)
 				}
+				// an offset helper: a function whose every return is unsafe.Add(<its k-th parameter>, …) stands for that argument
+				if k := offsetHelperBase(sc); k >= 0 && k < len(x.Call.Args) {
+					v = x.Call.Args[k]
+					continue
+				}
 			}
 			return "column", "result of a call"
 		case *ssa.UnOp:
@@ -557,6 +562,9 @@ func soleCallerRoot(p *Prog, fn *ssa.Function) *ssa.Function {
 		var caller *ssa.Function
 		n := 0
 		for _, g := range p.Funcs {
+			if g.Synthetic != "" {
+				continue // wrappers and thunks only forward
+			}
 			for _, site := range callsIn(g) {
 				if isCallTo(site, fn) {
 					n++
@@ -653,4 +661,41 @@ func knownSameClass(p *Prog, rule, name, construct string, fn *ssa.Function) (st
 		return hitN, hitC
 	}
 	return "", ""
+}
+
+// offsetHelperBase: fn returns, on every path, unsafe.Add(p, …) for one and the same pointer parameter p: index of p, else -1.
+func offsetHelperBase(fn *ssa.Function) int {
+	if fn == nil || fn.Blocks == nil || fn.Signature.Results().Len() != 1 {
+		return -1
+	}
+	idx := -1
+	for _, b := range fn.Blocks {
+		ret, ok := b.Instrs[len(b.Instrs)-1].(*ssa.Return)
+		if !ok {
+			continue
+		}
+		c, ok := ret.Results[0].(*ssa.Call)
+		if !ok {
+			return -1
+		}
+		bi, ok := c.Call.Value.(*ssa.Builtin)
+		if !ok || bi.Name() != "Add" {
+			return -1
+		}
+		pr, ok := c.Call.Args[0].(*ssa.Parameter)
+		if !ok {
+			return -1
+		}
+		k := -1
+		for i, q := range fn.Params {
+			if q == pr {
+				k = i
+			}
+		}
+		if k < 0 || (idx >= 0 && idx != k) {
+			return -1
+		}
+		idx = k
+	}
+	return idx
 }
